@@ -120,6 +120,7 @@ def fcodes(vals):
 
 
 def run(ctx):
+    U.fix_axioms(ctx)
     ctx.rule = ('register contents within the documented valid ranges (hue 0..360, percentages 0..100, raw integers 0..65535, '
                 'non-negative times; unused settings hold valid sentinels) drawn from pools of integers, eighths and thousandths, '
                 'per initial mode; each is run without a switch, with each single transition, with a switch to the mode in force '
